@@ -349,8 +349,8 @@ MANIFEST = dict(
           "makes the typed reads throw without any access outside the buffer, the 64-bit guards of read/getView/write/reserve "
           "pass exactly when cursor+size fits as natural numbers (with decide-witnesses that the unrepaired guards do not), and "
           "every write/reserve history on a FixedBufferWriter refines a wrap-free reference (accepted iff it fits, rejected = "
-          "no-op, available+written=capacity, written view = accepted bytes). The model is tied to the code by running the same "
-          "generated op sequences through the real classes under ASan/UBSan and the compiled model and diffing bytes, values, "
+          "no-op, available+written=capacity, written view = accepted bytes); a reader on an array that grows between its calls returns the same bytes for reads that already fitted and sees the appended ones, and one whose cursor lies beyond a shrunk array throws on every read (reader_sees_appended, stale_cursor_throws). The model is tied to the code by running the same "
+          "generated op sequences (incl. a reader opened on the writer's live array before further writes, and a writer reused after its bytes were moved out) through the real classes under ASan/UBSan and the compiled model and diffing bytes, values, "
           "cursors and exceptions."),
     note=("Trusted: Lean kernel; axioms propext/Classical.choice/Quot.sound; the hand-written model is tied to the code only by "
           "the correspondence harness (generators + canonicalisation) and the g++/sanitizer runtimes; std::vector/string/"
